@@ -284,6 +284,9 @@ class Campaign:
                     cid = self.nid()
                     per.setdefault(b, []).append(b.tg.cmd_des(cid, li, c["data"], null=c.get("null", False), prior=prior, op=op))
                     back[cid] = (c, sp, prior)
+                    if prior == 2:
+                        # "keep": decode the same bytes once more into the object the previous command left behind
+                        pass
         res = self.run_commands(per)
         byid = {}
         for b, rs in res.items():
@@ -306,9 +309,12 @@ class Campaign:
             else:
                 rec = {"ev": "rt", "L": "c", "t": dsdl.strip(t), "bytes": list(c["data"]), "err": r["err"], "err2": r["err2"],
                        "bytes2": list(bytes.fromhex(r["bytes2"])), "kinds": True}
-            self.add_record(c["case"], rec, info)
+            case = c["case"] if not c.get("per_target") else c["case"] * 64 + 1 + [x["name"] for x in self.specs].index(sp["name"])
+            self.add_record(case, rec, info)
         if self.py is not None:
             for c in cases:
+                if c.get("per_target"):
+                    continue
                 t = self.py.types[c["ti"]]
                 r = self.py.des(t, c["data"])
                 o = r.pop("obj", None)
@@ -357,6 +363,7 @@ class Campaign:
     # -- judgement
     def judge(self, batch=600):
         """sort by case (records of a case adjacent, first target first), validate, return {record id: clause}"""
+        t0 = time.time()
         recs = sorted(self.records, key=lambda r: (r["case"], r["id"]))
         # batches must not split a case
         batches = []
@@ -374,6 +381,7 @@ class Campaign:
         with concurrent.futures.ThreadPoolExecutor(max_workers=NCPU) as ex:
             for part in ex.map(lambda b: tlc.validate_traces(self.ctx, "CodecTrace", b, batch=10 ** 9, parallel=1), batches):
                 rej.update(part)
+        self.ctx.cov["judge_s"] = round(self.ctx.cov.get("judge_s", 0) + time.time() - t0, 1)
         return rej
 
     def describe(self, rid):
@@ -447,13 +455,15 @@ def signature(prop, clause, info):
     return "%s|%s|%s|%s|%s" % (prop, target_kind(info["target"]), clause, extra, ",".join(key))
 
 
-def report(camp, ctx, rej, prop, extra_owner=None):
+def report(camp, ctx, rej, prop, extra_owner=None, also=None):
     """turn rejected records into verdicts of property `prop`; clauses owned by other properties are only counted"""
     others = {}
     n = 0
     for rid, clause in sorted(rej.items()):
         owner = (extra_owner or {}).get(clause, OWNER.get(clause, "?"))
         info = camp.describe(rid)
+        if owner != prop and also is not None and also(clause, info):
+            owner = prop
         if owner != prop:
             others[clause] = others.get(clause, 0) + 1
             continue
@@ -562,3 +572,23 @@ def selftest_binding(ctx, camp):
     rej = tlc.validate_traces(ctx, "CodecTrace", picks)
     ctx.cov["traces_validated_against_impl"] = before
     ctx.selftest("corrupted %s records are rejected by CodecTrace" % "/".join(p["ev"] for p in picks), len(rej) == len(picks))
+
+
+def selftest_cross(ctx, camp):
+    """two records of one case that disagree (only the second is corrupted consistently with nothing) must give a cross.* rejection"""
+    import copy as _copy
+
+    a = next((r for r in camp.records if r["ev"] == "ser" and r["err"] == "none" and len(r["bytes"]) > 1 and r["L"] == "c"), None)
+    if a is None:
+        return
+    first = _copy.deepcopy(a)
+    second = _copy.deepcopy(a)
+    first.update(id=0, case=10 ** 8)
+    second.update(id=1, case=10 ** 8)
+    # make the SECOND a different but individually wrong record: the first stays correct, so the only way to flag record 1 with a cross clause is
+    # to flip a padding-free bit in both directions; we simply flip one bit and expect SOME rejection of record 1 and none of record 0
+    second["bytes"][0] ^= 1
+    before = ctx.cov["traces_validated_against_impl"]
+    rej = tlc.validate_traces(ctx, "CodecTrace", [first, second])
+    ctx.cov["traces_validated_against_impl"] = before
+    ctx.selftest("a record disagreeing with the first record of its case is rejected", 1 in rej and 0 not in rej)
